@@ -51,6 +51,7 @@ type corpusFile struct {
 type corpus struct {
 	all, small, large []corpusFile
 	eof               []corpusFile            // e_*: one tiny end-of-input truncation per lexer state, drawn rarely
+	deep              []corpusFile            // x_deep_*: deeply nested / very long chains
 	themes            map[string][]corpusFile // feature class -> files (swarm: a run may draw from one class only)
 	themeNames        []string
 }
@@ -78,6 +79,9 @@ func loadCorpus(dir string) (*corpus, error) {
 		base := filepath.Base(n)
 		f := corpusFile{name: base, src: b, php5: strings.Contains(base, "php5"), bad: strings.HasPrefix(base, "m_") || strings.HasPrefix(base, "e_m_")}
 		c.all = append(c.all, f)
+		if strings.HasPrefix(base, "x_deep") {
+			c.deep = append(c.deep, f)
+		}
 		if strings.HasPrefix(base, "e_") {
 			f.bad = true
 			c.eof = append(c.eof, f)
@@ -368,8 +372,17 @@ func genC11(c *corpus, seed uint64) *scn.Scenario {
 	// loosely keyed cache or a process-wide table conflates). crowd: many tiny
 	// malformed inputs under one grammar, so that one process meets many
 	// different error states and recovery paths (state kept per error site).
-	family, crowd := false, false
+	family, crowd, storm := false, false, false
 	switch x := r.n(100); {
+	case x >= 96 && len(c.deep) > 0 && s.Kind == "A":
+		// storm: many operations cut short by faults deep inside deeply nested
+		// trees, in one process (what an error path forgets to give back -
+		// counters, pooled objects, depth guards - adds up)
+		storm = true
+		ni = 2 + r.n(3)
+		nt = 2 + r.n(3)
+		s.Theme = "storm"
+		s.Light = true
 	case x < 12:
 		family = true
 		ni = 2 + r.n(5)
@@ -387,6 +400,12 @@ func genC11(c *corpus, seed uint64) *scn.Scenario {
 	}
 	crowdVers := [][]string{{"5.0", "5.3", "5.6"}, {"7.0", "7.1", "7.2", "7.3", "7.4", ""}}[r.n(2)]
 	for i := 0; i < ni; i++ {
+		if storm && i < 2 {
+			f := c.deep[r.n(len(c.deep))]
+			in := scn.Input{Name: f.name, Src: append([]byte(nil), f.src...), Version: versions[r.n(len(versions))], Callback: true}
+			s.Inputs = append(s.Inputs, in)
+			continue
+		}
 		if crowd {
 			in := c.tiny(r)
 			in.Version = crowdVers[r.n(len(crowdVers))]
@@ -410,11 +429,33 @@ func genC11(c *corpus, seed uint64) *scn.Scenario {
 		s.Inputs = append(s.Inputs, c.inputT(r, pLarge, theme))
 	}
 	shareAll := r.chance(50)
+	keepSub := r.chance(30)  // swarm: in some runs callers keep one statement of a tree and drop the rest
 	opFaults := r.chance(30) // swarm: in some runs operations are aborted by their writer
 	for t := 0; t < nt; t++ {
 		var task scn.Task
+		if storm {
+			for k := 5 + r.n(8); k > 0; k-- {
+				p := scn.Pipeline{Input: r.n(ni), ShareVersion: shareAll}
+				for o := 1 + r.n(2); o > 0; o-- {
+					switch x := r.n(10); {
+					case x < 5:
+						p.Ops = append(p.Ops, scn.Op{Kind: "traverse", Fault: &scn.WFault{Kind: "abort", At: r.n(4000)}})
+					case x < 7:
+						p.Ops = append(p.Ops, scn.Op{Kind: []string{"print", "printP", "dump", "dumpTP"}[r.n(4)], Fault: &scn.WFault{Kind: []string{"panic", "err"}[r.n(2)], At: r.n(4000)}})
+					default:
+						p.Ops = append(p.Ops, scn.Op{Kind: []string{"traverse", "null", "resolve", "print"}[r.n(4)]})
+					}
+				}
+				task.Pipelines = append(task.Pipelines, p)
+			}
+			s.Tasks = append(s.Tasks, task)
+			continue
+		}
 		for k := 1 + r.n(maxPipes); k > 0; k-- {
 			p := scn.Pipeline{Input: r.n(ni), ShareVersion: shareAll || r.chance(30)}
+			if keepSub && r.chance(40) {
+				p.Keep = []string{"sub", "subgc"}[r.n(2)]
+			}
 			for o := r.n(maxOps); o > 0; o-- {
 				op := scn.Op{Kind: c11Ops[r.n(len(c11Ops))]}
 				if opFaults && r.chance(25) {
@@ -457,7 +498,7 @@ func genC11(c *corpus, seed uint64) *scn.Scenario {
 	for t := range s.Tasks {
 		for k := range s.Tasks[t].Pipelines {
 			p := &s.Tasks[t].Pipelines[k]
-			if len(s.Inputs[p.Input].Src) > 8192 {
+			if in := &s.Inputs[p.Input]; !storm && (len(in.Src) > 8192 || strings.HasPrefix(in.Name, "x_deep")) {
 				heavy++
 				if heavy > 3 {
 					p.Input = smallest(s.Inputs)
